@@ -68,6 +68,39 @@ impl Xg {
         })
     }
 
+    /// The same network with a NON-UNIFORM number of extra symbolic variables per network variable (every variable gets
+    /// at least `k`, some get one or two more).  `get_extended_symbolic_graph` never builds such a graph, but the library
+    /// accepts it (`check_hctl_var_support` only asks for enough variables), and code that walks the flat list of extra
+    /// variables with a stride goes wrong on it.  For the model this is a graph with `k` variable sets.
+    pub fn new_skew(name: &str, aeon: &str, k: usize, rot: usize) -> Result<Xg, String> {
+        let bn = BooleanNetwork::try_from(aeon)?;
+        let mut counts = std::collections::HashMap::new();
+        let n = bn.num_vars();
+        for (j, v) in bn.variables().enumerate() {
+            // at least one variable keeps exactly k
+            let extra = if j == rot % n { 0 } else { 1 + (j + rot) % 2 };
+            counts.insert(v, (k + extra) as u16);
+        }
+        let context = biodivine_lib_param_bn::symbolic_async_graph::SymbolicContext::with_extra_state_variables(&bn, &counts)?;
+        let unit = context.mk_constant(true);
+        let graph = SymbolicAsyncGraph::with_custom_context(&bn, context, unit)?;
+        let vars: Vec<VariableId> = graph.variables().collect();
+        let params = graph.symbolic_context().parameter_variables().clone();
+        let var_names = vars.iter().map(|v| graph.get_variable_name(*v).clone()).collect();
+        Ok(Xg {
+            name: format!("{name}~skew{rot}"),
+            n_v: vars.len(),
+            n_s: 1 << vars.len(),
+            n_c: 1 << params.len(),
+            params,
+            vars,
+            var_names,
+            bn,
+            graph,
+            k,
+        })
+    }
+
     pub fn num_points(&self) -> usize {
         self.n_s * self.n_c * self.n_s.pow(self.k as u32)
     }
@@ -383,7 +416,9 @@ pub fn k7(dir: &str, thorough: bool, seed: u64) {
     for round in 0..rounds {
         for (name, aeon) in NETWORKS {
             for k in 0..=3usize {
-                let xg = match Xg::new(name, aeon, k) {
+                // every other (round, k): a graph with a non-uniform number of extra variables per network variable
+                let made = if k >= 1 && (round + k) % 2 == 1 { Xg::new_skew(name, aeon, k, round) } else { Xg::new(name, aeon, k) };
+                let xg = match made {
                     Ok(x) => x,
                     Err(e) => {
                         if round == 0 && k == 0 {
